@@ -104,7 +104,7 @@ func Run(o Opts) (*Result, error) {
 	if err := os.WriteFile(filepath.Join(dir, cfg), []byte(o.Config), 0o644); err != nil {
 		return nil, err
 	}
-	args := []string{"-XX:+UseParallelGC", fmt.Sprintf("-Xmx%dg", o.HeapGB), "-Xss256m"}
+	args := []string{"-XX:+UseParallelGC", fmt.Sprintf("-Xmx%dg", o.HeapGB), "-Xss256m", "-Djava.io.tmpdir=" + dir}
 	if o.DFS {
 		args = append(args, "-Dtlc2.tool.queue.IStateQueue=StateDeque")
 	}
